@@ -2,7 +2,7 @@
    (a) documentation of the fixed crashes: the explicitly named PRE-FIX definitions (Model_Checkers_Prefix.v)
        panic on well-formed witnesses, the current definitions return Ok on the same files;
    (b) C20: well-formed namesake witnesses on which spelling-based checkers still report. *)
-From GC Require Import Base GoAst Model_Checkers Model_Checkers_Prefix Witnesses.
+From GC Require Import Base GoAst Model_Checkers Model_Checkers_Prefix Model_Checkers2 Witnesses.
 
 Ltac refute_panic w := exists w; split; [vm_compute; reflexivity|eexists; vm_compute; reflexivity].
 
@@ -74,3 +74,18 @@ Proof. refute_real ns_cast_pkgfunc. Qed.
 Lemma nilValReturn_real_refuted :
   exists f, wf f = true /\ exists w, In w (warnings (run_nilValReturn f)) /\ is_real w = false.
 Proof. refute_real ns_nil_local. Qed.
+
+(* exitAfterDefer recognises log.Fatal* / os.Exit by spelling: a local variable `os` with an Exit field is reported *)
+Lemma exitAfterDefer_real_refuted :
+  exists f, wf f = true /\ exists w, In w (warnings (run_exitAfterDefer f)) /\ is_real w = false.
+Proof. refute_real ns_exit_local. Qed.
+
+(* the hypothesis of C20_exitAfterDefer_real_partial is satisfiable *)
+Lemma no_exit_namesake_satisfiable :
+  wf ns_filepath_alias = true /\ forallb g_no_namesake_exit (all_nodes ns_filepath_alias) = true.
+Proof. split; vm_compute; reflexivity. Qed.
+
+(* the hypothesis of C01_unlambda_total_partial holds on a converted real file *)
+Lemma unlambda_hypothesis_satisfiable :
+  wf w_bare_return = true /\ forallb g_unlambda_arity (all_nodes w_bare_return) = true.
+Proof. split; vm_compute; reflexivity. Qed.
